@@ -139,10 +139,6 @@ fn oracle(hv: &HVocab, t: &GTree, start: &[usize], p: &HParams, res: &Res, sink:
                 None => return fnd("C19:no-doctype", "output does not start with <!DOCTYPE html>".to_string()),
             };
             sink.stat("oracle.doctype");
-            if !tokenizable(sub, &hv.v) {
-                sink.stat("oracle.not-tokenizable");
-                return None;
-            }
             let parent = if start.is_empty() {
                 None
             } else {
@@ -151,7 +147,25 @@ fn oracle(hv: &HVocab, t: &GTree, start: &[usize], p: &HParams, res: &Res, sink:
                     _ => None,
                 }
             };
+            // a text node serialised on its own is still governed by its parent (raw text)
+            let in_context = match parent {
+                Some(n) if !sub.is_normal() => GTree::leaf(GValue::Element(n)),
+                Some(n) => GTree::new(GValue::Element(n), vec![sub.clone()]),
+                None => sub.clone(),
+            };
+            if !tokenizable(&in_context, &hv.v) {
+                sink.stat("oracle.not-tokenizable");
+                return None;
+            }
             let mut ck = Checker::new(&hv.v, &p.cdata, p.indent.is_some(), body);
+            // default-namespace declarations of the ancestors of the start node
+            for i in 0..start.len() {
+                for k in &t.at(&start[..i]).unwrap().kids {
+                    if let GValue::Namespace(0, ns) = k.v {
+                        ck.tree_default.push((ns, false));
+                    }
+                }
+            }
             let mut r = ck.nodes(&[sub], parent);
             if r.is_ok() {
                 let rest = ck.tk.rest();
